@@ -98,6 +98,7 @@ type oracleModel struct {
 }
 
 type votesRun struct {
+	staleBridger map[int]chain.Key         // oracle index -> the bridger key of an earlier bonding lifetime
 	variantVoted map[string]map[uint64]int // oracle address -> nonce -> claim variant of its latest accepted vote
 	curNonce     uint64
 	curVariant   int
@@ -394,6 +395,19 @@ func (r *votesRun) stepHostileVote() {
 	i := r.rng.IntN(len(r.b.Oracles))
 	o := r.b.Oracles[i]
 	last := r.b.K.GetLastEventNonceByOracle(r.c.Ctx, o.Oracle.Acc())
+	if ob, stale := r.staleBridger[i]; stale && r.rng.IntN(3) == 0 {
+		// the bridger key this oracle used in an earlier bonding lifetime (it re-bonded with another one)
+		if e := r.eventBy(last + 1); e != nil {
+			before := r.snapshotVotes()
+			res := r.c.Msg(fix.WrapClaim(r.b.Name, ob.Bech32(), e.Variants[0](ob.Bech32())))
+			r.res.Count("votes_by_a_former_bridger_key", 1)
+			if res.OK() {
+				r.res.Violate("C02/vote-accepted-from-former-bridger", "a claim for nonce %d signed by %s, the bridger oracle %d used before it unbonded and re-bonded with another bridger, was accepted", e.Nonce, ob.Bech32(), i)
+			}
+			r.afterOp("former-bridger-vote", before, nil, i)
+		}
+		return
+	}
 	switch r.rng.IntN(6) {
 	case 0: // vote again for the nonce already voted, same claim
 		if e := r.eventBy(last); e != nil {
@@ -1020,7 +1034,23 @@ func (r *votesRun) stepChurn() {
 				}
 			}
 			if res := r.b.SetOracleList(keep); res.OK() {
-				if res2 := r.b.Bond(o, unit.MulRaw(int64(1+r.rng.IntN(5)))); res2.OK() {
+				// every second time it comes back with a new bridger key
+				oldBridger := o.Bridger
+				if r.rng.IntN(2) == 0 {
+					o.Bridger = chain.DeriveKey(r.spec.Seed, "rebridger", i*1000+r.om[i].lifetime)
+					fix.Fund(c, o.Bridger.Acc(), chain.FXCoin(1)) // (an account to sign transactions with)
+				}
+				res2 := r.b.Bond(o, unit.MulRaw(int64(1+r.rng.IntN(5))))
+				if !res2.OK() {
+					o.Bridger = oldBridger
+				} else if o.Bridger.Bech32() != oldBridger.Bech32() {
+					if r.staleBridger == nil {
+						r.staleBridger = map[int]chain.Key{}
+					}
+					r.staleBridger[i] = oldBridger
+					r.res.Count("rebonds_with_a_new_bridger", 1)
+				}
+				if res2.OK() {
 					r.om[i].removed = false
 					r.om[i].lifetime++
 					r.res.Count("readmissions", 1)
